@@ -239,6 +239,13 @@ func c05Alphabet(s *sessSys) []sessReq {
 					}
 					add("mod-ufar-newpeer", sessReq{sReq: sReq{Kind: kMod, Conn: c, UpdateFAR: []sFAR{{ID: 2, Action: ActionForward, HasFwd: true, HasDst: true, Dst: ie.DstInterfaceAccess, OHCIP: other, OHCTEID: 0x7002}}}, Sess: x.Idx})
 				}
+				if q1, q4 := x.qer(1), x.qer(4); q1 != nil && q4 != nil && q1.MBRDL <= q4.MBRDL {
+					// the flow QER's MBR is raised above the session QER's: whatever the agent then thinks of the two roles, the
+					// ending must give every meter cell back to the pool it came from
+					nq := *q1
+					nq.MBRUL, nq.MBRDL = q4.MBRUL+50000, q4.MBRDL+50000
+					add("mod-uqer-raise-flow-mbr", sessReq{sReq: sReq{Kind: kMod, Conn: c, UpdateQER: []sQER{nq}}, Sess: x.Idx})
+				}
 				if f := x.far(2); f != nil && f.Action != ActionForward && f.OHCIP == "" {
 					add("mod-ufar-resume", sessReq{sReq: sReq{Kind: kMod, Conn: c, UpdateFAR: []sFAR{{ID: 2, Action: ActionForward, HasFwd: true, HasDst: true, Dst: ie.DstInterfaceAccess, OHCIP: c04Peers[0], OHCTEID: 0x7003}}}, Sess: x.Idx})
 				}
